@@ -411,7 +411,7 @@ class Terms:
                 elif isinstance(v, ast.FormattedValue):
                     spec = T(v.format_spec) if v.format_spec is not None else None
                     parts.append(("fmt", T(v.value), v.conversion, spec))
-            return ("fstr", tuple(parts))
+            return _fstr(tuple(parts))
         if isinstance(e, ast.IfExp):
             return ("ifexp", T(e.test), T(e.body), T(e.orelse))
         if isinstance(e, ast.Await):
@@ -664,6 +664,36 @@ def _binop(op, l, r) -> tuple:
     return ("binop", name, l, r)
 
 
+def _fstr(parts: tuple) -> tuple:
+    """f-string term in one spelling: a plainly formatted part that is itself an f-string is spliced in
+    (f"a{f'b{x}c'}d" = f"ab{x}cd"), adjacent literal parts are joined, and ONE part with several definitions makes several
+    f-strings (f"Host: {φ(f'[{h}]' | h)}" = φ(f"Host: [{h}]" | f"Host: {h}")) - the order of the alternatives is kept."""
+    def plain(p):
+        return p[0] == "fmt" and p[2] == -1 and p[3] is None
+
+    phis = [i for i, p in enumerate(parts) if plain(p) and p[1][0] == "phi"]
+    if len(phis) == 1 and len(parts[phis[0]][1][1]) <= 4:
+        i = phis[0]
+        return ("phi", tuple(_fstr(parts[:i] + (("fmt", alt, -1, None),) + parts[i + 1:]) for alt in parts[i][1][1]))
+    flat = []
+    for p in parts:
+        if plain(p) and p[1][0] == "fstr":
+            flat.extend(p[1][1])
+        elif plain(p) and p[1][0] == "const" and isinstance(p[1][1], str):
+            flat.append(("const", p[1][1]))
+        else:
+            flat.append(p)
+    out = []
+    for p in flat:
+        if out and out[-1][0] == "const" and p[0] == "const":
+            out[-1] = ("const", out[-1][1] + p[1])
+        elif p == ("const", ""):
+            continue
+        else:
+            out.append(p)
+    return ("fstr", tuple(out))
+
+
 def _fuse_comp(t):
     """A comprehension over an unfiltered comprehension / generator expression is one comprehension: the outer target is
     bound to the inner element (`[f(c, v) for c, v in ((g(k), v) for k, v in d.items())]` = `[f(g(k), v) for k, v in d.items()]`)."""
@@ -744,7 +774,7 @@ def _format_term(tmpl, args, kwargs):
         else:
             return None
         parts.append(("fmt", v, -1, None))
-    return ("fstr", tuple(parts))
+    return _fstr(tuple(parts))
 
 
 _ZERO_FIELD = {1: "B", 2: "H", 4: "L", 8: "Q"}
